@@ -23,12 +23,15 @@ package main
 
 import (
 	"bytes"
+	"errors"
 	"fmt"
 	"io"
+	"strings"
 	"time"
 
 	"seehuhn.de/go/postscript/afm"
 	"seehuhn.de/go/postscript/funit"
+	"seehuhn.de/go/postscript/pfb"
 	"seehuhn.de/go/postscript/type1"
 
 	"verif/env"
@@ -381,6 +384,101 @@ func writeFaultFamily(cases []writeCase, budget time.Duration) mc.Family {
 	}
 }
 
+// pfbTextFaultFamily: a fault reported together with data.  Inside the text
+// segments of a PFB stream the decoder reads with plain Read calls, so a
+// source that hands over the bytes up to offset k of such a segment together
+// with an error - once; a timeout, say - has reported a fault the decoder
+// sees: the decoding call must return an error, not complete as if nothing
+// had happened.  (Headers and binary segments are read with io.ReadFull, which
+// is documented to drop an error that arrives with the last byte it asked for;
+// those offsets are not part of this family.)
+type faultWithData struct {
+	data []byte
+	pos  int
+	at   int // the call whose data ends at this offset also reports the fault
+	done bool
+}
+
+var errTransient = errors.New("injected transient fault (reported together with data)")
+
+func (r *faultWithData) Read(p []byte) (int, error) {
+	if r.pos >= len(r.data) {
+		return 0, io.EOF
+	}
+	n := min(len(p), len(r.data)-r.pos)
+	if !r.done && r.pos < r.at && r.pos+n >= r.at {
+		n = r.at - r.pos
+		copy(p, r.data[r.pos:r.pos+n])
+		r.pos += n
+		r.done = true
+		return n, errTransient
+	}
+	copy(p, r.data[r.pos:r.pos+n])
+	r.pos += n
+	return n, nil
+}
+
+func pfbTextFaultFamily(budget time.Duration) mc.Family {
+	type target struct {
+		name string
+		data []byte
+		at   int
+	}
+	var ts []target
+	add := func(name string, data []byte) {
+		// walk the segment headers; every offset inside the payload of a text segment is a target
+		for pos := 0; pos+6 <= len(data) && data[pos] == 0x80 && (data[pos+1] == 1 || data[pos+1] == 2); {
+			n := int(data[pos+2]) | int(data[pos+3])<<8 | int(data[pos+4])<<16 | int(data[pos+5])<<24
+			if pos+6+n > len(data) {
+				break
+			}
+			if data[pos+1] == 1 {
+				for k := 1; k <= n; k++ {
+					if n > 40 && k > 3 && k < n-3 && k%17 != 0 {
+						continue // long segments: both ends and every 17th offset
+					}
+					ts = append(ts, target{name, data, pos + 6 + k})
+				}
+			}
+			pos += 6 + n
+		}
+	}
+	for _, in := range corpus.PFBs() {
+		add("pfb/"+in.Name, in.Data)
+	}
+	for _, in := range corpus.Fonts() {
+		if len(in.Data) > 0 && in.Data[0] == 0x80 {
+			add("font/"+in.Name, in.Data)
+		}
+	}
+	return mc.Family{
+		Name: "pfb-text-segment-fault-reported-with-data", Items: len(ts), Budget: budget,
+		Rule: fmt.Sprintf("%d targets: every offset inside the text segments of the PFB inputs (both ends and every 17th offset of long segments); the source delivers the bytes up to that offset together with a transient error (reported once, later calls succeed); through pfb.Decode + io.ReadAll and, for fonts, type1.Read: the call must return an error; non-trivial = all", len(ts)),
+		Body: func(c *mc.Ctx, item int) mc.Verdict {
+			t := ts[item]
+			_, err := io.ReadAll(pfb.Decode(&faultWithData{data: t.data, at: t.at}))
+			c.Step()
+			what := fmt.Sprintf("%s: transient fault reported together with the data ending at offset %d of %d (inside a text segment)", t.name, t.at, len(t.data))
+			if err == nil {
+				v := mc.Fail("C13:read-fault-swallowed:pfb-text-segment:with-data", what+": io.ReadAll(pfb.Decode(r)) returned no error")
+				v.Render = what
+				return v
+			}
+			if strings.HasPrefix(t.name, "font/") {
+				_, ferr := type1.Read(&faultWithData{data: t.data, at: t.at})
+				c.Step()
+				if ferr == nil {
+					v := mc.Fail("C13:read-fault-swallowed:pfb-text-segment:with-data:type1.Read", what+": type1.Read returned a font and no error")
+					v.Render = what
+					return v
+				}
+			}
+			return mc.Pass("reported", true)
+		},
+		Describe: func(i int) string { return fmt.Sprintf("%s offset %d", ts[i].name, ts[i].at) },
+	}
+}
+
 func main() {
 	mc.Main(mc.Program{
 		Property: "C13",
@@ -396,7 +494,7 @@ func main() {
 				budget = 12 * time.Minute
 			}
 			es := entries()
-			return []mc.Family{readFaultFamily(es, budget), truncationFamily(es, budget), writeFaultFamily(writeCases(), budget)}
+			return []mc.Family{readFaultFamily(es, budget), truncationFamily(es, budget), writeFaultFamily(writeCases(), budget), pfbTextFaultFamily(budget)}
 		},
 	})
 }
